@@ -29,7 +29,7 @@ ASSUMPTIONS = [
 REAL_VS_STUB = {"real": ["stackscope incl. ctypes frame reads", "real threads, real GIL hand-over at blocking calls", "sys.monitoring / sys.settrace instrumentation of stackscope's own code objects"],
                 "seam": ["stackscope._lowlevel_cpython_310.ctypes (module global) replaced by a pass-through stand-in that judges py_object casts and notes slot reads; nothing in /repo is changed"],
                 "stub": ["generated sync programs", "controller deciding every hand-over", "shadow managers"]}
-RARE_PROBES = ["ident_reused", "loop_template_targets", "retry_loop_taken", "snapshot_rejected", "target_frame_returned_during_inspect", "thread_exited_during_extract", "unstarted_checked", "finished_checked", "preempt_yields", "targeted_handovers", "static_depth_self_checks", "blocked_generator_like_frames_checked", "blocked_frames_with_async_contexts"]
+RARE_PROBES = ["ident_reused", "loop_template_targets", "retry_loop_taken", "snapshot_rejected", "target_frame_returned_during_inspect", "thread_exited_during_extract", "unstarted_checked", "finished_checked", "preempt_yields", "targeted_handovers", "two_point_handovers", "static_depth_self_checks", "blocked_generator_like_frames_checked", "blocked_frames_with_async_contexts"]
 LEGS = [
     {"name": "blocked312", "python": "3.12", "quick": 500, "thorough": 15000, "quick_s": 50, "thorough_s": 400, "run_timeout": 120, "crash_is_violation": True, "params": {"mode": "blocked"}},
     {"name": "blocked311", "python": "3.11", "quick": 250, "thorough": 6000, "quick_s": 40, "thorough_s": 300, "run_timeout": 120, "crash_is_violation": True, "params": {"mode": "blocked"}},
@@ -427,6 +427,32 @@ def run_racing(ctx):
             state["skip"] -= 1
             return False
         nm0 = names.get(id(code))
+        two = state.get("two")
+        if two is not None:
+            # >= 3.11, two-point mode: two hand-overs a few boundaries apart, at a tape-chosen place
+            # of the call (a thread that loops comes back to the same instruction with another
+            # stack depth in between: the checks that follow must not be fooled by that)
+            state["bcount"] = state.get("bcount", 0) + 1
+            if state["bcount"] - 1 not in two["at"]:
+                return False
+            live = [tg for tg in tgs if not tg.done]
+            if not live:
+                return False
+            tg = live[t.choose(len(live))]
+            nsteps = two["steps"][two["at"].index(state["bcount"] - 1)]
+            for _ in range(nsteps):
+                if tg.done:
+                    break
+                tg.step()
+                state["progress"] += 1
+                if state["snapshots"] is not None and state["rec"] is not None:
+                    state["snapshots"].append(entered_managers(state["rec"]))
+                    if state["rec"].done_frame():
+                        state["snapshots"].append(())
+            events.append((nm0 or "?", kind, nsteps, "two-point", state["bcount"] - 1))
+            ctx.stat("two_point_handovers")
+            ctx.cover(("race-two", observe.PY, nm0 or "?", kind, min(nsteps, 3)))
+            return True
         tgt = state.get("target")
         if tgt is not None:
             # <= 3.10, targeted mode: exactly one hand-over, at a tape-chosen place of a tape-chosen
@@ -590,6 +616,12 @@ def run_racing(ctx):
             state["progress"] = 0
             state["skip"] = t.choose(100) if t.choose(2) else 0
             state["target"] = None
+            state["two"] = None
+            if sys.version_info >= (3, 11) and t.choose(3) == 2:
+                k1 = t.choose(50)
+                state["two"] = {"at": [k1, k1 + 1 + t.choose(12)], "steps": [1 + t.choose(2), 1 + t.choose(2)]}
+                state["bcount"] = 0
+                state["skip"] = 0
             if sys.version_info < (3, 11) and t.choose(2) == 1:
                 state["passname"] = "_inspect_frame" if "_inspect_frame" in names.values() else "inspect_frame"
                 state["target"] = {"pass": 1 + t.weighted([1, 1, 2]), "phase": t.weighted([1, 2, 3]), "k": t.choose(6), "steps": 1 + t.choose(2)}
@@ -601,7 +633,7 @@ def run_racing(ctx):
                 # extract(thread) under pre-emption
                 state["snapshots"] = None
                 before_dead = tg.done
-                with Preempt(codes, on_boundary, max_yields=1 + t.choose(4)) as pre:
+                with Preempt(codes, on_boundary, max_yields=max(1 + t.choose(4), 2 if state.get("two") else 1)) as pre:
                     try:
                         with warnings.catch_warnings():
                             warnings.simplefilter("ignore")
@@ -639,7 +671,7 @@ def run_racing(ctx):
                 with_info = _lowlevel.analyze_with_blocks(fr.f_code)
                 res = None
                 state["pet_starts"] = 0
-                with Preempt(codes, on_boundary, max_yields=1 + t.choose(4)) as pre:
+                with Preempt(codes, on_boundary, max_yields=max(1 + t.choose(4), 2 if state.get("two") else 1)) as pre:
                     try:
                         res = lowlevel.inspect_frame(fr)
                     except Exception as e:
